@@ -119,6 +119,21 @@ class Loop:
         self.body_events = []
 
 
+NEGATED_CMP = {'IsNot': 'Is', 'NotEq': 'Eq', 'NotIn': 'In'}
+UFUNC_BINOP = {'numpy.multiply': 'Mult', 'numpy.add': 'Add', 'numpy.subtract': 'Sub', 'numpy.divide': 'Div', 'numpy.true_divide': 'Div',
+               'numpy.power': 'Pow', 'numpy.floor_divide': 'FloorDiv', 'numpy.matmul': 'MatMult'}
+_KNOWN = None
+
+
+def known_funcs():
+    global _KNOWN
+    if _KNOWN is None:
+        import json
+        import pathlib
+        _KNOWN = frozenset(json.loads((pathlib.Path(__file__).parent / 'known_funcs.json').read_text()))
+    return _KNOWN
+
+
 FALL = T('fall')
 RAISE = T('raise')
 UNDEF = T('undef')
@@ -139,6 +154,9 @@ class FuncGraph:
         self._seq = 0
         self.closure_env = closure_env or {}
         self.shape_decl = {}
+        self.cur_fn = fn            # function whose scope resolves global names (differs from fn while a helper is inlined)
+        self._inline_stack = []
+        self.inlined = []           # (helper Func, call node) of helpers inlined into this graph
         env = {}
         for i, p in enumerate(fn.params):
             env[p] = self.params[p] = T('param', (p,), fn.node, fn)
@@ -182,7 +200,15 @@ class FuncGraph:
                 else:
                     env.clear()
                     env.update(merged)
-                    rest_env, rest_ret = self.block(stmts[i + 1:], env)
+                    # one arm left the function / loop: what follows runs under the other arm's condition
+                    g = (cond, False) if env_t is None and env_f is not None else (cond, True) if env_f is None and env_t is not None else None
+                    if g is not None:
+                        self._guards.append(g)
+                    try:
+                        rest_env, rest_ret = self.block(stmts[i + 1:], env)
+                    finally:
+                        if g is not None:
+                            self._guards.pop()
                 if ret_t is FALL and ret_f is FALL:
                     return rest_env, rest_ret
                 ret = self.mk('gamma', (cond, subst_fall(ret_t, rest_ret), subst_fall(ret_f, rest_ret)), s)
@@ -225,7 +251,7 @@ class FuncGraph:
 
     def st_Return(self, s, env):
         v = self.expr(s.value, env) if s.value is not None else const(None, s, self.fn)
-        self.event('return', v, s)
+        self.event('inline_return' if self._inline_stack else 'return', v, s)
         return ('term', v)
 
     def st_Raise(self, s, env):
@@ -249,7 +275,7 @@ class FuncGraph:
     st_Nonlocal = st_Global
 
     def st_Import(self, s, env):
-        for local, r in self.prog.import_binding(self.fn.mod, s).items():
+        for local, r in self.prog.import_binding(self.cur_fn.mod, s).items():
             env[local] = self.mk('ref', (r,), s) if r is not None else self.mk('unknown', ('import',), s)
         return None
 
@@ -262,7 +288,7 @@ class FuncGraph:
         return None
 
     def st_FunctionDef(self, s, env):
-        f = self.prog.nested_func(self.fn, s)
+        f = self.prog.nested_func(self.cur_fn, s)
         t = self.mk('closure', (f,), s)
         t.extra = dict(env)
         env[s.name] = t
@@ -314,11 +340,17 @@ class FuncGraph:
         c = self.expr(s.test, env)
         et, ef = dict(env), dict(env)
         self.refine_env(s.test, env, et, ef)
+        body, orelse = s.body, s.orelse
+        while c.op == 'unop' and c.args[0] == 'Not':
+            # canonical orientation: `if not c: A else: B` is `if c: B else: A`
+            c = c.args[1]
+            body, orelse = orelse, body
+            et, ef = ef, et
         self._guards.append((c, True))
-        env_t, ret_t = self.block(s.body, et)
+        env_t, ret_t = self.block(body, et)
         self._guards.pop()
         self._guards.append((c, False))
-        env_f, ret_f = self.block(s.orelse, ef)
+        env_f, ret_f = self.block(orelse, ef)
         self._guards.pop()
         return ('branch', c, env_t, ret_t, env_f, ret_f)
 
@@ -605,8 +637,10 @@ class FuncGraph:
             return env[name]
         if name in self.closure_env:
             return self.closure_env[name]
-        r = self.prog.lookup(self.fn.mod, name)
+        r = self.prog.lookup(self.cur_fn.mod, name)
         if r is not None:
+            if isinstance(r, Lib) and r.dotted == 'numpy.newaxis':
+                return const(None, node, self.fn)
             return self.mk('ref', (r,), node)
         if name in BUILTINS:
             return self.mk('ref', (('builtin', name),), node)
@@ -622,6 +656,8 @@ class FuncGraph:
             if isinstance(o, (Mod, Lib)):
                 r = self.prog.getattr_static(o, e.attr)
                 if r is not None:
+                    if isinstance(r, Lib) and r.dotted == 'numpy.newaxis':
+                        return const(None, e, self.fn)      # np.newaxis is None
                     return self.mk('ref', (r,), e)
             elif isinstance(o, Cls):
                 r = self.prog.getattr_static(o, e.attr)
@@ -661,6 +697,9 @@ class FuncGraph:
             else:
                 args.append(self.expr(a, env))
         kws = [(k.arg, self.expr(k.value, env)) for k in e.keywords]
+        c = self.canonical_call(f, args, kws, e, env)
+        if c is not None:
+            return c
         t = self.mk('call', (f, tuple(args), tuple(kws)), e)
         self.event('call', t, e)
         for k in e.keywords:
@@ -670,6 +709,91 @@ class FuncGraph:
                 env[k.value.id] = t
         return t
 
+    # ------------------------------------------------------------------ canonical forms of equivalent spellings
+    def canonical_call(self, f, args, kws, e, env):
+        """np.multiply(a, b[, out=a]) -> a * b / a *= b; np.expand_dims(x, k) -> x[..., None, :]; calls of helpers that the
+        reference tree does not have are inlined.  Returns the replacing term or None."""
+        lib = f.args[0].dotted if f.op == 'ref' and isinstance(f.args[0], Lib) else None
+        plain = not any(a.op == 'star' for a in args) and all(k is not None for k, _ in kws)
+        if lib in UFUNC_BINOP and plain and len(args) == 2 and all(k == 'out' for k, _ in kws):
+            opn = UFUNC_BINOP[lib]
+            if not kws:
+                return self.mk('binop', (opn, args[0], args[1]), e)
+            out = kws[0][1]
+            if out is args[0]:
+                new = self.mk('iop', (opn, args[0], args[1]), e)
+                name = next((k.value.id for k in e.keywords if k.arg == 'out' and isinstance(k.value, ast.Name)), None)
+                self.event('inplace', new, e, data=dict(target=args[0], how='augassign', name=name))
+                if name is not None:
+                    self.bind(name, new, env, e)
+                return new
+            return None
+        if lib == 'numpy.expand_dims' and plain:
+            x = args[0] if args else dict(kws).get('a')
+            ax = args[1] if len(args) > 1 else dict(kws).get('axis')
+            if x is not None and ax is not None and ax.op == 'const' and isinstance(ax.args[0], int) and not isinstance(ax.args[0], bool) \
+                    and len(args) + len(kws) == 2:
+                k = ax.args[0]
+                full = lambda: self.mk('slice', (const(None, e, self.fn), const(None, e, self.fn), const(None, e, self.fn)), e)
+                none = const(None, e, self.fn)
+                if k < 0:
+                    items = [const(Ellipsis, e, self.fn), none] + [full() for _ in range(-k - 1)]
+                else:
+                    items = [full() for _ in range(k)] + [none]
+                idx = self.mk('tuple', (tuple(items),), e)
+                return self.mk('sub', (x, idx), e)
+        return self.inline_helper(f, args, kws, e, env)
+
+    def inline_helper(self, f, args, kws, e, env):
+        """a call of a repo function that the reference tree (pbv/known_funcs.json) does not have is evaluated in place"""
+        callee, cenv, pre = None, {}, []
+        if f.op == 'ref' and isinstance(f.args[0], Func):
+            callee = f.args[0]
+        elif f.op == 'closure':
+            callee, cenv = f.args[0], dict(f.extra or {})
+        elif f.op == 'attr' and self.self_name and f.args[0] is self.params.get(self.self_name) and self.fn.cls is not None and not self._inline_stack:
+            m = self.prog.find_method(self.fn.cls, f.args[1]) if hasattr(self.prog, 'find_method') else self.fn.cls.methods.get(f.args[1])
+            if isinstance(m, Func) and not m.is_static and not m.is_classmethod and not m.is_property:
+                callee, pre = m, [f.args[0]]
+        if callee is None or callee.qual in known_funcs() or callee.name == '<lambda>':
+            return None
+        if callee in self._inline_stack or len(self._inline_stack) >= 3 or callee.vararg or callee.kwarg:
+            return None
+        if any(a.op == 'star' for a in args) or any(k is None for k, _ in kws):
+            return None
+        if any(isinstance(n, (ast.Yield, ast.YieldFrom, ast.Global, ast.Nonlocal, ast.Await)) for n in ast.walk(callee.node)):
+            return None
+        if callee.cls is not None and not pre and not callee.is_static:
+            return None
+        pos = callee.posonly + callee.args
+        actual = pre + list(args)
+        if len(actual) > len(pos):
+            return None
+        bound = dict(zip(pos, actual))
+        for k, v in kws:
+            if k in bound or k not in callee.params:
+                return None
+            bound[k] = v
+        saved = self.cur_fn
+        self.cur_fn = callee
+        try:
+            for p in callee.params:
+                if p not in bound:
+                    if p not in callee.defaults:
+                        return None
+                    bound[p] = self.expr(callee.defaults[p], {})
+            env2 = dict(cenv)
+            env2.update(bound)
+            self._inline_stack.append(callee)
+            self.inlined.append((callee, e))
+            try:
+                _, ret = self.block(callee.node.body, env2)
+            finally:
+                self._inline_stack.pop()
+        finally:
+            self.cur_fn = saved
+        return subst_fall(ret, const(None, e, self.fn))
+
     def ex_BinOp(self, e, env):
         return self.mk('binop', (type(e.op).__name__, self.expr(e.left, env), self.expr(e.right, env)), e)
 
@@ -677,6 +801,8 @@ class FuncGraph:
         v = self.expr(e.operand, env)
         if isinstance(e.op, ast.USub) and v.op == 'const' and isinstance(v.args[0], (int, float)) and not isinstance(v.args[0], bool):
             return const(-v.args[0], e, self.fn)
+        if isinstance(e.op, ast.Not) and v.op == 'unop' and v.args[0] == 'Not':
+            return v.args[1] if v.args[1].op in ('cmp', 'bool', 'unop') else self.mk('unop', ('Not', v), e)
         return self.mk('unop', (type(e.op).__name__, v), e)
 
     def ex_BoolOp(self, e, env):
@@ -687,7 +813,11 @@ class FuncGraph:
         parts = []
         for op, c in zip(e.ops, e.comparators):
             r = self.expr(c, env)
-            parts.append(self.mk('cmp', (type(op).__name__, left, r), e))
+            opn = type(op).__name__
+            if opn in NEGATED_CMP:
+                parts.append(self.mk('unop', ('Not', self.mk('cmp', (NEGATED_CMP[opn], left, r), e)), e))
+            else:
+                parts.append(self.mk('cmp', (opn, left, r), e))
             left = r
         if len(parts) == 1:
             return parts[0]
@@ -695,11 +825,15 @@ class FuncGraph:
 
     def ex_IfExp(self, e, env):
         c = self.expr(e.test, env)
+        body, orelse = e.body, e.orelse
+        while c.op == 'unop' and c.args[0] == 'Not':
+            c = c.args[1]
+            body, orelse = orelse, body
         self._guards.append((c, True))
-        a = self.expr(e.body, env)
+        a = self.expr(body, env)
         self._guards.pop()
         self._guards.append((c, False))
-        b = self.expr(e.orelse, env)
+        b = self.expr(orelse, env)
         self._guards.pop()
         return self.mk('gamma', (c, a, b), e)
 
@@ -750,7 +884,7 @@ class FuncGraph:
         fd = ast.FunctionDef(name='<lambda>', args=e.args, body=[ast.Return(value=e.body, lineno=e.lineno, col_offset=e.col_offset)],
                              decorator_list=[], returns=None, lineno=e.lineno, col_offset=e.col_offset, type_params=[])
         ast.fix_missing_locations(fd)
-        f = self.prog.nested_func(self.fn, fd)
+        f = self.prog.nested_func(self.cur_fn, fd)
         t = self.mk('closure', (f,), e)
         t.extra = dict(env)
         return t
